@@ -237,7 +237,7 @@ func checkC06(cx *Ctx, r *Report) {
 
 	// --- required content -----------------------------------------------------------------
 	if k.content != nil {
-		cl := k.content.Fn("logic")
+		cl := cx.followDelegation(k.content.Fn("logic"))
 		aps, ok := fx.atomPaths(cl, 8192)
 		if !ok || cl == nil {
 			r.Undecided("R-GUARD", "checkRequestRequiredContent", k.content.Pos, "closure not resolved / too many paths")
